@@ -1270,6 +1270,8 @@ class _KindFactory:
     ):
         for param in process.parameters:
             self.update_action_parameter(param)
+        for c in process.preconditions:
+            self.update_problem_kind_expression(c)
 
         continuous_fluents = set()
         fluents_in_rhs = set()
